@@ -127,6 +127,8 @@ func init() {
 	}
 	extSchemas["strings.TrimLeft"] = schemaTrimLeft
 	extSchemas["strings.Compare"] = schemaStringsCompare
+	extSchemas["strings.IndexByte"] = schemaIndexByte(false)
+	extSchemas["strings.LastIndexByte"] = schemaIndexByte(true)
 	extSchemas["(*sync.Mutex).Lock"] = schemaMutexLock
 	extSchemas["(*sync.Mutex).Unlock"] = schemaMutexUnlock
 	extSchemas["(*math/rand.Rand).Int63"] = schemaInt63
@@ -733,10 +735,76 @@ func schemaStringsCompare(x *Exec, st *State, fn *ssa.Function, args []Val, c *s
 		x.assume(o.And(o.Le(o.Int(-1), r), o.Le(r, o.Int(1))))
 		x.assume(o.Eq(r, o.Neg(rev)))
 		x.assume(o.Eq(o.Eq(r, o.Int(0)), x.seqEq(a, b)))
+		// byte-wise lexicographic order: decided at the first difference, else by length
+		d := x.firstDiff(a, b)
+		m := o.Ite(o.Le(a.Len, b.Len), a.Len, b.Len)
+		ca, cb := o.SelByte(a.Arr, o.IdxAdd(a.Off, d)), o.SelByte(b.Arr, o.IdxAdd(b.Off, d))
+		x.assume(o.Eq(r, o.Ite(o.Lt(d, m), o.Ite(o.Lt(ca, cb), o.Int(-1), o.Int(1)),
+			o.Ite(o.Lt(a.Len, b.Len), o.Int(-1), o.Ite(o.Lt(b.Len, a.Len), o.Int(1), o.Int(0))))))
 		return r
 	}
 	x.fail("strings.Compare schema needs `mode int`")
 	return nil
+}
+
+// firstDiff(a, b): the first index at which the two byte sequences differ, or the shorter length if one is a prefix
+// of the other -- a function of the two contents, introduced with its defining facts.
+func (x *Exec) firstDiff(a, b StrVal) *Term {
+	o := x.o
+	d := o.UF("seq.firstdiff", IntSort, a.Arr, a.Off, a.Len, b.Arr, b.Off, b.Len)
+	if x.fdDone == nil {
+		x.fdDone = map[*Term]bool{}
+	}
+	if !x.fdDone[d] {
+		x.fdDone[d] = true
+		m := o.Ite(o.Le(a.Len, b.Len), a.Len, b.Len)
+		k := o.BoundVar("k", IntSort)
+		x.assumeClosed(o.And(o.Le(o.Int(0), d), o.Le(d, m),
+			o.Forall([]*Term{k}, o.Implies(o.And(o.Le(o.Int(0), k), o.Lt(k, d)),
+				o.Eq(o.SelByte(a.Arr, o.IdxAdd(a.Off, k)), o.SelByte(b.Arr, o.IdxAdd(b.Off, k))))),
+			o.Implies(o.Lt(d, m), o.Neq(o.SelByte(a.Arr, o.IdxAdd(a.Off, d)), o.SelByte(b.Arr, o.IdxAdd(b.Off, d))))))
+	}
+	return d
+}
+
+// indexByte(s, c) / lastIndexByte(s, c): strings.IndexByte / strings.LastIndexByte as functions of the content.
+func (x *Exec) indexByte(s StrVal, c *Term, last bool) *Term {
+	o := x.o
+	name := "seq.indexbyte"
+	if last {
+		name = "seq.lastindexbyte"
+	}
+	r := o.UF(name, IntSort, s.Arr, s.Off, s.Len, c)
+	if x.fdDone == nil {
+		x.fdDone = map[*Term]bool{}
+	}
+	if !x.fdDone[r] {
+		x.fdDone[r] = true
+		k := o.BoundVar("k", IntSort)
+		at := func(i *Term) *Term { return o.SelByte(s.Arr, o.IdxAdd(s.Off, i)) }
+		var rng *Term
+		if last {
+			rng = o.And(o.Lt(r, k), o.Lt(k, s.Len)) // no occurrence after r
+		} else {
+			rng = o.And(o.Le(o.Int(0), k), o.Lt(k, o.Ite(o.Lt(r, o.Int(0)), s.Len, r))) // none before r (none at all if r = -1)
+		}
+		if last {
+			rng = o.And(o.Le(o.Int(0), k), rng)
+		}
+		x.assumeClosed(o.And(o.Le(o.Int(-1), r), o.Lt(r, s.Len),
+			o.Implies(o.Le(o.Int(0), r), o.Eq(at(r), c)),
+			o.Forall([]*Term{k}, o.Implies(rng, o.Neq(at(k), c)))))
+	}
+	return r
+}
+
+func schemaIndexByte(last bool) func(x *Exec, st *State, fn *ssa.Function, args []Val, c *ssa.CallCommon) Val {
+	return func(x *Exec, st *State, fn *ssa.Function, args []Val, c *ssa.CallCommon) Val {
+		if x.o.M.BV {
+			x.fail("strings.IndexByte schema needs `mode int`")
+		}
+		return x.indexByte(args[0].(StrVal), args[1].(*Term), last)
+	}
 }
 
 // strings.Builder: an object whose cell is the byte slice built so far (a zero Builder is empty)
